@@ -111,7 +111,9 @@ double valueOf(const Tree& t, int c, const std::string& e) {
     int anc = 0; for (int p = t.n[c].parent; p >= 0; p = t.n[p].parent) ++anc;
     int kids = (int)t.n[c].kids.size(); int ps = 0; if (t.n[c].parent >= 0) for (int s : t.n[t.n[c].parent].kids) { if (s == c) break; ++ps; }
     if (e == "count(preceding::*) div 2") return prec / 2.0; if (e == "(count(preceding::*) + count(ancestor::*)) div 4") return (prec + anc) / 4.0;
-    if (e == "count(*) + 0.5") return kids + 0.5; if (e == "count(preceding-sibling::*) * 1.5 + 1") return ps * 1.5 + 1; return prec + 1;
+    if (e == "count(*) + 0.5") return kids + 0.5; if (e == "count(preceding-sibling::*) * 1.5 + 1") return ps * 1.5 + 1;
+    if (e == "count(preceding::*) * 97 + 650") return prec * 97.0 + 650; if (e == "(count(preceding::*) + 1) * 676") return (prec + 1) * 676.0; if (e == "count(preceding::*) * 13 + 1900") return prec * 13.0 + 1900;
+    return prec + 1;
 }
 
 std::string shapeOf(const std::string& pat) { if (pat.empty()) return "default"; if (pat == "*") return "star"; if (pat.find('|') != std::string::npos) return "union"; if (pat.find('[') != std::string::npos) return "pred"; return "name"; }
@@ -154,7 +156,7 @@ struct C17 : public Driver {
             if (c == 0 || (dc.manyNames && c < 3)) cnt = ""; else if (c == 1) cnt = name(); else if (c == 2) cnt = "*"; else if (c == 3) cnt = name() + "|" + name(); else if (c == 4) cnt = name() + "[@k]"; else cnt = "*[@k]";
             s["count"] = cnt; s["from"] = g.chance(1, 3) ? name() : std::string(); s["token"] = g.pick(toks);
             // a fifth of the sets number by value expression instead (the rounding of xsl:number value=)
-            if (g.chance(1, 5)) { static const std::vector<std::string> vals = { "count(preceding::*) div 2", "(count(preceding::*) + count(ancestor::*)) div 4", "count(*) + 0.5", "count(preceding-sibling::*) * 1.5 + 1", "count(preceding::*) + 1" }; s["value"] = g.pick(vals); s["from"] = ""; s["count"] = ""; }
+            if (g.chance(1, 5)) { static const std::vector<std::string> vals = { "count(preceding::*) div 2", "(count(preceding::*) + count(ancestor::*)) div 4", "count(*) + 0.5", "count(preceding-sibling::*) * 1.5 + 1", "count(preceding::*) + 1", "count(preceding::*) * 97 + 650", "(count(preceding::*) + 1) * 676", "count(preceding::*) * 13 + 1900" }; s["value"] = g.pick(vals); s["from"] = ""; s["count"] = ""; }
             sets.push(s);
         }
         p["sets"] = sets;
@@ -164,6 +166,9 @@ struct C17 : public Driver {
         int nh = (int)gs.range(2, 4);
         for (int i = 0; i < nh; ++i) { Json h = Json::object(); h["order"] = gs.pick(orders); h["clock"] = gs.pick(clocks); h["every"] = (long long)gs.range(2, 50); h["delta"] = (long long)gs.range(1, 100); h["backAt"] = (long long)gs.range(1, 300); h["backBy"] = (long long)gs.range(1, 100000); h["rkseed"] = (long long)(gs.next() >> 8); hist.push(h); }
         p["histories"] = hist; p["reuse"] = gs.chance(1, 2);
+        // a third of the runs: the document is parsed once and kept, and a numbering transformation that fails part-way (a count pattern
+        // calling an unavailable function at one node) runs first on the same transformer and the same parsed source
+        if (gs.chance(1, 3)) { p["poison"] = true; p["poison_node"] = d.ids[gs.below(d.ids.size())]; p["poison_level"] = gs.chance(1, 2) ? "any" : "single"; }
         return p;
     }
 
@@ -181,11 +186,20 @@ struct C17 : public Driver {
         std::vector<std::map<std::string, std::string>> values;     // per history: "f|id" -> value
         {
             XEnv env(&mm);
+            SourceHolder kept; const XalanParsedSource* pre = nullptr;
+            if (plan.boolean("poison")) {
+                if (makeSource(env, "parsed", plan.str("doc"), SrcFault(), kept)) pre = kept.ps;
+                if (pre) {
+                    std::string px = "<?xml version=\"1.0\"?><xsl:stylesheet version=\"1.0\" xmlns:xsl=\"http://www.w3.org/1999/XSL/Transform\" xmlns:nofn=\"urn:x-nofn\"><xsl:template match=\"/\"><out><xsl:for-each select=\"//*\"><o><xsl:number level=\"" + plan.str("poison_level", "any") + "\" count=\"*[not(@id = '" + plan.str("poison_node") + "') or nofn:none()]\"/></o></xsl:for-each></out></xsl:template></xsl:stylesheet>";
+                    XReq rq; rq.doc = plan.str("doc"); rq.xsl = px; rq.srcForm = "parsed"; SimSink sink; XformOut po = runTransform(env, rq, sink, pre);
+                    res.count(po.ok() ? "poison:completed" : "fault:abort-inside-count-pattern"); tr.ev("poison st=" + std::to_string(po.status));
+                }
+            }
             for (size_t h = 0; h < hist.a.size(); ++h) {
                 const Json& H = hist.a[h];
                 g_clock.configure(H.str("clock", "advance"), H.num("delta", 1), H.num("every", 7), H.num("backAt"), H.num("backBy"));
-                XReq rq; rq.doc = rerank(plan.str("doc"), (uint64_t)H.num("rkseed")); rq.xsl = sheetFor(sets, H.str("order", "doc")); SimSink sink;
-                XformOut o = runTransform(env, rq, sink);
+                XReq rq; rq.doc = pre ? plan.str("doc") : rerank(plan.str("doc"), (uint64_t)H.num("rkseed")); rq.xsl = sheetFor(sets, H.str("order", "doc")); SimSink sink; if (pre) rq.srcForm = "parsed";
+                XformOut o = runTransform(env, rq, sink, pre);
                 res.count("transforms"); res.count("simclock_ticks", (int64_t)g_clock.calls); if (H.str("clock") != "advance") res.count("fault:clock-" + H.str("clock")); res.count("order:" + H.str("order"));
                 if (mm.reuse) res.count("fault:addr-reuse");
                 std::map<std::string, std::string> m;
@@ -199,6 +213,7 @@ struct C17 : public Driver {
             { XReq rq; rq.doc = plan.str("doc2"); rq.xsl = sheetFor(sets, "doc"); SimSink s1, s2; XformOut a = runTransform(env, rq, s1); XEnv fresh; XformOut b = runTransform(fresh, rq, s2);
               if (a.status != b.status || a.bytes != b.bytes) { std::string d; std::string f = firstObsDiff(b.bytes, a.bytes, &d); res.violate("stale-counters", f.substr(0, 1), "second document on the reused transformer vs a fresh transformer: " + d); }
               tr.ev("doc2 " + hex64(fnvStr(a.bytes))); }
+            kept.release();
             env.destroyTransformer();
         }
         g_clock.reset();
@@ -226,6 +241,8 @@ struct C17 : public Driver {
                 // format round trip
                 auto ft = values[0].find(kt);
                 bool positive = !got.empty(); for (char ch : got) if (ch != '.' && (ch < '0' || ch > '9')) positive = false; if (got == "0" || got.compare(0, 2, "0.") == 0) positive = false;   // values below 0.5 are printed as plain numbers: not a list to decode
+                // roman numerals end at 3999 (Xalan prints "#error" beyond; XSLT 1.0 does not say what else to do): not decoded
+                if (positive && (tok == "i" || tok == "I")) { std::vector<int> pl; if (decodeList(got, "1", pl)) for (int v : pl) if (v > 3999) { positive = false; res.count("oracle_open:roman-above-3999"); break; } }
                 if (ft != values[0].end() && (positive || got.empty())) { std::vector<int> dec, plain; bool okp = decodeList(got, "1", plain);
                     if (!decodeList(ft->second, tok, dec) || (okp && dec != plain)) res.violate("format-roundtrip", tok, "node " + id + ": format='" + tok + "' gives [" + ft->second + "] for the number list [" + got + "]"); else res.count("format_decoded"); }
                 // history independence
